@@ -15,11 +15,27 @@
 #include <string.h>
 
 #ifndef HEAP_RA_MAXSLOTS
+#ifdef HP_MAXN
+#define HEAP_RA_MAXSLOTS (2 * (HP_MAXN + 1))
+#else
 #define HEAP_RA_MAXSLOTS 32
 #endif
+#endif
+#if HEAP_RA_MAXSLOTS > 32
+#error "HEAP_RA_MAXSLOTS > 32: extend the case list"
+#endif
 
-#define RA_CASE_(k) if ((k) <= HEAP_RA_MAXSLOTS && slots == (k)) { nw = malloc((k) * sizeof(void *)); } else
-#define RA_COPY_(k) if ((k) < HEAP_RA_MAXSLOTS && (k) < ncopy) nw[k] = old[k];
+/* copy the first min(k, ncopy) pointers into the (single, constant-size) new object */
+#define RA_CP_(j, k) if ((j) < (k) && (j) < ncopy) nw[j] = old[j];
+#define RA_COPY_(k) \
+	RA_CP_(0, k) RA_CP_(1, k) RA_CP_(2, k) RA_CP_(3, k) RA_CP_(4, k) RA_CP_(5, k) RA_CP_(6, k) RA_CP_(7, k) \
+	RA_CP_(8, k) RA_CP_(9, k) RA_CP_(10, k) RA_CP_(11, k) RA_CP_(12, k) RA_CP_(13, k) RA_CP_(14, k) RA_CP_(15, k) \
+	RA_CP_(16, k) RA_CP_(17, k) RA_CP_(18, k) RA_CP_(19, k) RA_CP_(20, k) RA_CP_(21, k) RA_CP_(22, k) RA_CP_(23, k) \
+	RA_CP_(24, k) RA_CP_(25, k) RA_CP_(26, k) RA_CP_(27, k) RA_CP_(28, k) RA_CP_(29, k) RA_CP_(30, k) RA_CP_(31, k)
+#define RA_CASE_(k) if ((k) <= HEAP_RA_MAXSLOTS && slots == (k)) { \
+		nw = malloc((k) * sizeof(void *)); \
+		if (nw != NULL) { RA_COPY_(k) } \
+	} else
 
 void *
 realloc(void * ptr, size_t size)
@@ -43,10 +59,6 @@ realloc(void * ptr, size_t size)
 		RA_CASE_(32) { nw = NULL; }
 		if (nw == NULL)
 			return (NULL);
-		RA_COPY_(0) RA_COPY_(1) RA_COPY_(2) RA_COPY_(3) RA_COPY_(4) RA_COPY_(5) RA_COPY_(6) RA_COPY_(7)
-		RA_COPY_(8) RA_COPY_(9) RA_COPY_(10) RA_COPY_(11) RA_COPY_(12) RA_COPY_(13) RA_COPY_(14) RA_COPY_(15)
-		RA_COPY_(16) RA_COPY_(17) RA_COPY_(18) RA_COPY_(19) RA_COPY_(20) RA_COPY_(21) RA_COPY_(22) RA_COPY_(23)
-		RA_COPY_(24) RA_COPY_(25) RA_COPY_(26) RA_COPY_(27) RA_COPY_(28) RA_COPY_(29) RA_COPY_(30) RA_COPY_(31)
 		free(ptr);
 		return (nw);
 	} else {
